@@ -12,6 +12,7 @@ base=$(cd $WT && /venv/bin/python -m pytest -q -p no:cacheprovider --continue-on
 # run the check against the scratch worktree with the change applied (VERIF_REPO redirects the harness; /repo untouched)
 out=$(cd /verif && VERIF_REPO=$WT VERIF_EVIDENCE_DIR=/tmp/seed_evidence_$pid VERIF_REPLAY_DIR=/tmp/seed_replays_$pid timeout 3000 bin/check ${CHECK:-$P} --tier quick 2>&1 | tail -25)
 rc=$(echo "$out" | grep -c "^VIOLATION property=")
+crc=$(echo "$out" | grep -oE "rc=[0-9]+" | tail -1)
 git -C $WT checkout -q -- .
 echo "$out" | grep -E "rejected:|MACHINERY" | head -4
-echo "$P m$k: demo_clean_rc=$clean demo_mutant_rc=$mut baseline='$base' check_detected=$rc"
+echo "$P m$k: demo_clean_rc=$clean demo_mutant_rc=$mut baseline='$base' check_detected=$rc check_${crc:-rc=none}"
